@@ -144,6 +144,16 @@ class Walk:
         if k == "bin":
             a = self.operand(env, rv["a"])
             b = self.operand(env, rv["b"])
+            if is_const(a) and is_const(b) and isinstance(a[1], int) and isinstance(b[1], int) and not isinstance(a[1], bool):
+                opn = rv["op"]
+                base = opn.replace("WithOverflow", "").replace("Unchecked", "")
+                if base in ("Add", "Sub", "Mul"):
+                    r = a[1] + b[1] if base == "Add" else (a[1] - b[1] if base == "Sub" else a[1] * b[1])
+                    if r < 0:
+                        return TOP
+                    if opn.endswith("WithOverflow"):
+                        return ("tuple", (const(r), const(0)))
+                    return const(r)
             if is_const(a) and is_const(b) and isinstance(a[1], int) and isinstance(b[1], int):
                 op = rv["op"]
                 table = {"Eq": a[1] == b[1], "Ne": a[1] != b[1], "Lt": a[1] < b[1], "Le": a[1] <= b[1], "Gt": a[1] > b[1], "Ge": a[1] >= b[1]}
@@ -318,6 +328,18 @@ def std_hooks():
                 return w.field(v, "0")
             if v[0] == "adt":
                 return "diverge"
+            return None
+        if re.search(r"Option::<T>::(unwrap_or_default|unwrap_or|unwrap_or_else)$", nm):
+            v = w.deref_val(env, argv[0]) if argv else TOP
+            if v[0] == "adt" and v[2] == "Some":
+                return w.field(v, "0")
+            if v[0] == "adt" and v[2] == "None" and nm.endswith("unwrap_or") and len(argv) > 1:
+                return w.deref_val(env, argv[1])
+            return None
+        if re.search(r"<impl str>::is_empty$|string::String::is_empty$", nm):
+            v = w.deref_val(env, argv[0]) if argv else TOP
+            if is_const(v) and isinstance(v[1], str):
+                return const(1 if v[1] == "" else 0)
             return None
         if re.search(r"Option::<T>::ok_or(_else)?$", nm):
             v = w.deref_val(env, argv[0]) if argv else TOP
